@@ -83,13 +83,27 @@ def run(tier, seed):
     core.replay_paths(chk, g, paths, lambda a: make_driver(params, a), '2c1n edges', 'c13', params)
     core.replay_paths(chk, g, list(core.random_walks(g, 4000 if thorough else 600, 14, rng)), lambda a: make_driver(params, a),
                       '2c1n walks', 'c13', params)
-    # bigger instances: invariants only (3 clients; 2 names in thorough)
-    for clients, names, maxid in ([([1, 2, 3], [1], 3)] + ([([1, 2, 3], [1, 2], 3)] if thorough else [])):
-        res, _ = tlc.run(BASE, 'b.cfg', extra={'b.cfg': cfg(clients, names, maxid, props=thorough and len(names) == 1)}, timeout=3000)
-        chk.tlc_stats(res, 'Bus names: %d clients, %d names' % (len(clients), len(names)))
+    # bigger instances.  3 clients on 1 name: invariants, and the graph is replayed too (two clients waiting behind an
+    # owner only exist from three clients on): sampled edge-cover tours (all of them in the thorough tier) and walks
+    res, g3 = tlc.dump_graph(BASE, 'b.cfg', extra={'b.cfg': cfg([1, 2, 3], [1], 3, props=thorough)}, timeout=3000)
+    chk.tlc_stats(res, 'Bus names: 3 clients, 1 name')
+    if not res.ok:
+        chk.violation('model: Bus(names 3x1) %s %s' % res.violation, dict(kind='TLC', trace=repr(res.trace[-3:])))
+    chk.notes['graph_3c1n'] = [len(g3.nodes), g3.nedges]
+    p3 = {'clients': 3, 'names': 1}
+    tours = list(core.edge_cover_tours(g3, 30))
+    chk.notes['tours_3c1n'] = len(tours)
+    if not thorough:
+        tours = rng.sample(tours, min(len(tours), 1500))
+    core.replay_paths(chk, g3, tours, lambda a: make_driver(p3, a), '3c1n tours', 'c13', p3)
+    core.replay_paths(chk, g3, list(core.random_walks(g3, 6000 if thorough else 500, 18, rng)), lambda a: make_driver(p3, a),
+                      '3c1n walks', 'c13', p3)
+    del g3
+    if thorough:
+        res, _ = tlc.run(BASE, 'b.cfg', extra={'b.cfg': cfg([1, 2, 3], [1, 2], 3, props=False)}, timeout=3000)
+        chk.tlc_stats(res, 'Bus names: 3 clients, 2 names')
         if not res.ok:
-            chk.violation('model: Bus(names %dx%d) %s %s' % ((len(clients), len(names)) + res.violation),
-                          dict(kind='TLC', trace=repr(res.trace[-3:])))
+            chk.violation('model: Bus(names 3x2) %s %s' % res.violation, dict(kind='TLC', trace=repr(res.trace[-3:])))
     # code -> spec: random histories with up to 4 (6) clients on 2 names
     for nclients in ((3, 4, 6) if thorough else (3, 4)):
         params = {'clients': nclients, 'names': 2}
@@ -121,7 +135,8 @@ def run(tier, seed):
     return chk.finish(
         rule='TLC explores all histories of Hello / RequestName (8 flag combinations) / ReleaseName / GetNameOwner / '
              'ListQueuedOwners / disconnect for 2 clients with one reconnection (action properties: reply soundness, replacement '
-             'only if agreed, succession, released-is-gone) and the invariants for 3 clients; every edge and random walks are '
+             'only if agreed, succession, released-is-gone) and the invariants for 3 clients; every edge and random walks of the '
+             '2-client graph, and sampled (thorough: all) edge-cover tours and walks of the 3-client graph, are '
              'replayed on a real Bus comparing every reply and signal each client receives; random histories with up to 4 (6) '
              'clients on 2 names are validated by TLC',
         exhaustive=True)
